@@ -21,7 +21,13 @@ class T:
     def cond_text(self, kind, truth):
         r = self.rng
         if kind == 'if':
-            k = r.randrange(7)
+            k = r.randrange(8)
+            if k == 7:
+                # every comparison on equal and on adjacent sides, literal and symbolic (KT = 1, KF = 0)
+                a = r.choice([0, 1, 3, 5, 255])
+                T_ = ['%d >= %d' % (a, a), '%d <= %d' % (a, a), '%d == %d' % (a, a), '%d > %d' % (a + 1, a), '%d < %d' % (a, a + 1), '%d != %d' % (a, a + 1), '%d >= %d' % (a + 1, a), 'KT >= 1', 'KT <= 1', 'KF >= 0', 'KT > KF', 'KF < KT', 'KT >= KT']
+                F_ = ['%d > %d' % (a, a), '%d < %d' % (a, a), '%d != %d' % (a, a), '%d >= %d' % (a, a + 1), '%d <= %d' % (a + 1, a), '%d == %d' % (a, a + 1), 'KT > 1', 'KT < 1', 'KF >= 1', 'KF > KF', 'KT < KT', 'KT <= KF']
+                return '.if %s' % r.choice(T_ if truth else F_)
             if k == 0: return '.if %d' % (r.choice([1, 2, 255]) if truth else 0)
             # any non-zero value holds: negative values, all-ones, large values
             if k == 5: return '.if %s' % (r.choice(['-1', '2 - 5', '~0', '0 - KT', '-KT', '0x7fffffffffffffff', '~0xff', '1 << 40']) if truth else r.choice(['0', '5 - 5', '~(-1)', 'KT - KT', '-0', '0 * -3']))
